@@ -36,7 +36,8 @@
     - [verbatim s n] [slice s pos pos_end] — the model of [latex_verbatim()]. *)
 From Coq Require Import NArith List Bool Arith Lia.
 From PLV Require Import Base.PyStr Tok.PState Tok.Tokenizer Parse.Nodes Parse.Parser Parse.ParseWire
-  Proofs.ParserSpansDefs Proofs.ParserSpansTok Proofs.ParserSpansStrict Proofs.ParserSpansTol.
+  Proofs.ParserSpansDefs Proofs.ParserSpansTok Proofs.ParserSpansStrict Proofs.ParserSpansTol
+  Proofs.ParserSpansTolerant.
 From PLV Require Gen.GenWalkerCtx.
 Import ListNotations.
 
@@ -125,6 +126,45 @@ Theorem C01_tolerant_nested_refuted :
     parse_top s true cx (walker_state cx) = Ok (ONode (Some n)) p /\ ~ in_range_nested s n.
 Proof. exact tolerant_nested_refuted. Qed.
 
+(** What DOES hold in tolerant mode, for every string and EVERY context (no
+    context condition), proved through the same per-task induction with
+    postconditions for recovered parse errors ([ParserSpansTolerant.run_post_t]):
+    a tolerant parse that returns returns a node (never [None]), the reader
+    stays inside the input, and every node [m] of the tree satisfies
+    [tol_node s m]:
+    - [pos <= pos_end <= |s|] (node lists: both ends present with
+      [pos <= pos_end <= |s|], or both absent);
+    - the body of a group, math or environment node lies inside the node's span
+      and its items are a [chain] inside it (in document order, pairwise
+      non-overlapping); the items of every node list are a [chain] inside the
+      list's span;
+    - NOT claimed (false, see above): that the ARGUMENTS of a macro,
+      environment or specials node lie inside its span or are ordered; they
+      are only in range themselves (recursively [tol_node]).
+    No text equalities (tolerant placeholders drop characters). *)
+Theorem C01_tolerant_nested_partial : forall s cx o p,
+  parse_top s true cx (walker_state cx) = Ok o p ->
+  p <= length s /\ exists n, o = ONode (Some n) /\ forall m, in_tree m n -> tol_node s m.
+Proof.
+  intros s cx o p H. apply parse_top_tolerant in H. destruct H as (A & n & E & T).
+  split; [exact A|]. exists n. split; [exact E|]. intros m I. eapply tol_in_tree; eauto.
+Qed.
+
+(** The in-range half of the tolerant clause, spelled out for every node. *)
+Theorem C01_tolerant_in_range : forall s cx n p,
+  parse_top s true cx (walker_state cx) = Ok (ONode (Some n)) p ->
+  forall m a b, in_tree m n -> nspan m = Some (a, b) -> a <= b /\ b <= length s.
+Proof. exact parse_top_tolerant_in_range. Qed.
+
+(** Non-vacuity of the tolerant theorems: an unclosed group inside an
+    unclosed math inside a macro argument is recovered from. *)
+Example C01_tolerant_nonvacuous :
+  let s := [92; 116; 101; 120; 116; 98; 102; 123; 97; 36; 123; 98; 32; 125; 125; 32; 99]%N in
+  (* \textbf{a${b }} c *)
+  exists n p, parse_top s true Gen.GenWalkerCtx.default_ctx (walker_state Gen.GenWalkerCtx.default_ctx)
+              = Ok (ONode (Some n)) p /\ p = length s.
+Proof. vm_compute. eexists _, _. split; reflexivity. Qed.
+
 (** Non-vacuity: a document with a macro with arguments, math, a comment, an
     environment and a group parses strictly under the default context, and the
     theorems apply to it. *)
@@ -146,3 +186,5 @@ Print Assumptions C01_strict_any_fuel.
 Print Assumptions C01_default_ctx_ok.
 Print Assumptions C01_chars_text_needs_ctx_ok.
 Print Assumptions C01_tolerant_nested_refuted.
+Print Assumptions C01_tolerant_nested_partial.
+Print Assumptions C01_tolerant_in_range.
